@@ -47,18 +47,18 @@ CHECKS = {
   technique="self-composition under bounded symbolic execution of go/ssa + SMT (z3), native replay",
   design="DESIGN.md section 5 C14"),
  "C02": dict(
-  text="The real Writer and the real Reader are executed symbolically end to end (concurrency 1): for every content of short inputs over the option matrix (block size x block checksum x content checksum x symbolic content size x level x legacy), nine delivery shapes (Write splits, Flush, ReadFrom with four source fragmentation modes, byte-by-byte) and five read-back shapes (direct and buffered Read, WriteTo), the decoded bytes equal the input and the stream ends cleanly; compressible 40/70-byte inputs exercise real compressed blocks.",
-  note=FRAME_NOTE,
+  text="The real Writer and the real Reader are executed symbolically end to end (concurrency 1): for every content of short inputs over the option matrix (block size x block checksum x content checksum x symbolic content size x level x legacy), nine delivery shapes (Write splits, Flush, ReadFrom with four source fragmentation modes, byte-by-byte) and five read-back shapes (direct and buffered Read, WriteTo), the decoded bytes equal the input and the stream ends cleanly; compressible 40/70-byte inputs exercise real compressed blocks. Concurrency: the call sequences of the C08 Writer runs (ConcurrencyOption 2..4) are read back by the real Reader, and frames of 1..4 blocks are read by a concurrent Reader, under every schedule within the delay bound.",
+  note=FRAME_NOTE + " " + CONC_NOTE,
   technique="bounded symbolic execution of go/ssa (Writer -> Reader, std-lib io code executed) + SMT (z3), native replay",
   design="DESIGN.md section 5 C02"),
  "C05": dict(
-  text="Reader acceptance is compared with a reference frame parser run on exactly the bytes the Reader consumed: arbitrary symbolic streams of up to 8 bytes after six prefixes (nothing, frame magic, legacy magic, skippable magic, two valid headers) decided by the solver, and every single-byte mutation position of Writer-made frames (mutation values enumerated, content concrete, because symbolic bytes under XXH32 comparisons only pose collision searches). Two classes of legacy/DictID permissiveness are listed as known findings; anything else accepted is a violation.",
-  note=FRAME_NOTE,
+  text="Reader acceptance is compared with a reference frame parser run on exactly the bytes the Reader consumed: arbitrary symbolic streams of up to 8 bytes after six prefixes (nothing, frame magic, legacy magic, skippable magic, two valid headers) decided by the solver, and every single-byte mutation position of Writer-made frames (mutation values enumerated, content concrete, because symbolic bytes under XXH32 comparisons only pose collision searches). Two classes of legacy/DictID permissiveness are listed as known findings; anything else accepted is a violation. A concurrent Reader (ConcurrencyOption(2)) is run over a two-block frame with one byte complemented at 10 (thorough: every) position(s) under every schedule within the delay bound, same oracle.",
+  note=FRAME_NOTE + " " + CONC_NOTE,
   technique="bounded symbolic execution of go/ssa + reference-parser oracle + SMT (z3), native replay",
   design="DESIGN.md section 5 C05"),
  "C06": dict(
-  text="Frames produced by the real Writer (21 templates over checksums/size/legacy/compressed/stored/empty blocks, content symbolic) are cut at a symbolically chosen position (every position 1..len-1, enumerated by the solver) and read back through Read (direct and buffered) and WriteTo under four source fragmentation modes: never a clean end, error is not and does not wrap io.EOF, delivered bytes are a prefix; legacy frames exempt exactly at block boundaries.",
-  note=FRAME_NOTE,
+  text="Frames produced by the real Writer (21 templates over checksums/size/legacy/compressed/stored/empty blocks, content symbolic) are cut at a symbolically chosen position (every position 1..len-1, enumerated by the solver) and read back through Read (direct and buffered) and WriteTo under four source fragmentation modes: never a clean end, error is not and does not wrap io.EOF, delivered bytes are a prefix; legacy frames exempt exactly at block boundaries. A concurrent Reader (ConcurrencyOption(2)) is run over a two-block frame cut at 10 (thorough: every) position(s) under every schedule within the delay bound.",
+  note=FRAME_NOTE + " " + CONC_NOTE,
   technique="bounded symbolic execution of go/ssa with symbolic cut position + SMT (z3), native replay",
   design="DESIGN.md section 5 C06"),
  "C07": dict(
